@@ -144,3 +144,47 @@ def mutants(master, workers, only=None, run_tests=True):
         json.dump({"seed": master, "caught": caught, "total": len(results), "results": results}, f, indent=1)
     log("sensitivity self-test: %d of %d caught" % (caught, len(results)))
     return 0 if caught == len(results) else 1
+
+
+# ----------------------------------------------------------------------------- specificity
+def benign(master, workers, only=None):
+    """Behaviour-preserving refactorings (benign/<id>/patch.diff, written by independent
+    sub-agents who were asked NOT to break the property) must leave every check silent."""
+    repo = proc.repo_root()
+    patches = sorted(glob.glob(os.path.join(VERIF_DIR, "benign", "*", "patch.diff")))
+    if only:
+        patches = [p for p in patches if only in p]
+    results = []
+    bad = 0
+    for p in patches:
+        name = os.path.basename(os.path.dirname(p))
+        d = scratch_copy(repo)
+        try:
+            r = subprocess.run(["git", "apply", p], cwd=d, capture_output=True, text=True)
+            if r.returncode != 0:
+                results.append({"refactor": name, "error": "patch does not apply: " + r.stderr[-300:]})
+                log("%-36s patch does not apply" % name)
+                bad += 1
+                continue
+            env = dict(os.environ, PYTHONPYCACHEPREFIX=os.path.join(d, ".pyc"))
+            tr = subprocess.run([sys.executable, "-m", "pytest", "-q", "-p", "no:cacheprovider", "-x", "--no-cov"],
+                                cwd=d, capture_output=True, text=True, env=env, timeout=1800)
+            tests = tr.stdout.strip().splitlines()[-1] if tr.stdout.strip() else tr.stderr[-200:]
+            row = {"refactor": name, "tests": tests, "checks": {}}
+            for prop in ("c08", "c09", "c10"):
+                env = dict(os.environ, VERIF_REPO=d, VERIF_SEED=str(master))
+                cr = subprocess.run([os.path.join(VERIF_DIR, "check"), prop, "--tier", "quick",
+                                     "--workers", str(workers), "--no-evidence"],
+                                    cwd=VERIF_DIR, capture_output=True, text=True, env=env, timeout=3600)
+                row["checks"][prop] = cr.returncode
+                if cr.returncode != 0:
+                    bad += 1
+                    row.setdefault("tails", {})[prop] = cr.stdout[-1200:]
+            results.append(row)
+            log("%-36s tests=%s checks=%s" % (name, tests, row["checks"]))
+        finally:
+            shutil.rmtree(d, ignore_errors=True)
+    with open(os.path.join(VERIF_DIR, "evidence", "selftest-benign.json"), "w") as f:
+        json.dump({"seed": master, "alarms": bad, "results": results}, f, indent=1)
+    log("specificity self-test: %d alarms on %d behaviour-preserving refactorings" % (bad, len(results)))
+    return 0 if bad == 0 else 1
